@@ -169,7 +169,7 @@ PROPS = {
                 "residue number, x, y, z, occupancy, B factor) per text at two levels: never accepted.  non-trivial = text with at least two atoms; "
                 "distinct = distinct case line",
         "assumptions": ["input is ASCII (bytes = characters); SEQRES / DBREF / SEQADV / MODRES / SSBOND are covered by the reader-model correspondence in C05's malformed stream, not by the record specification",
-                        "insertion codes that differ only in case are not generated for one residue number (the reader keys residues by the raw character and stores it upper-cased)",
+                        
                         "a residue key that comes back later in the chain always carries the same residue name: a residue holding conformers of several names together with blank alternate locations is not generated (which blank conformer is shared out is not fixed by the property; the specification shares out a single one)",
                         "a truncated atom line keeps at least 7 characters (a bare 'ATOM  ' is not a record for the reader and is skipped without a diagnostic)",
                         "the whole-file refinement theorem read_pdb (render recs) = denote recs is not proved (proved: field and line read-back, the grouping and the simulation of the specification walk on runs of coordinate and TER records; not proved: MODEL boundaries, metadata records, the passes after the loop); the two are compared on every generated text"],
@@ -237,9 +237,9 @@ PROPS = {
     "C15": {
         "translators": ["t2a", "t2b", "t2c"],
         "count": {"quick": 40, "thorough": 400},
-        "rule": "PDB: record lists from the C01 generator (metadata, 0-3 models, hydrogens by element column on about one atom in fourteen and "
+        "rule": "PDB: record lists from the C01 generator (metadata, 0-3 models, hydrogens by element column in either case or by name with a blank column, mercury and holmium beside them, and "
                 "forced on the first atom of every second file, blank chain ids, serial wrap) rendered with arbitrary justification; mmCIF: "
-                "documents from the C02 generator (hydrogen rows forced on the first row of every model in every second document) in arbitrary "
+                "documents from the C02 generator (hydrogen rows, spelled H, h or recognisable by the name only, forced on the first row of every model in every second document) in arbitrary "
                 "layouts; each text read under all 2^3 option sets at the loose level: the full outcome compared with the reader model, the "
                 "structure and metadata compared with the specification applied to the filtered records / rows (hydrogens removed, first model, "
                 "no metadata).  54 file-name shapes (upper / lower / mixed case extensions, pdb1, mmcif, .gz, multiple dots, no extension, hidden "
@@ -248,7 +248,7 @@ PROPS = {
                 "model; a missing file must be an error; for save and save_gz the written (decompressed) content is compared with the raw "
                 "writers.  non-trivial = option set other than 0 / every name; distinct = distinct case line",
         "assumptions": ["paths are '/'-separated, without a trailing separator and without '.' / '..' components",
-                        "a hydrogen is an ATOM / HETATM record whose element column reads H (a row whose type_symbol reads H): the notion the readers use; hydrogens recognisable only by their name are not discarded by either side",
+                        "a hydrogen is an ATOM / HETATM record (an atom_site row) whose atom gets hydrogen as its element by the rule of Atom::new: the element text in either case, else the whole atom name, else the name's first letter when that is one of C H N O S (the readers compared the raw text with H until fix dff6518)",
                         "metadata records precede the coordinates (only_first_model stops reading at the second MODEL record) and the rows of one mmCIF model are contiguous",
                         "the PDB theorem excludes hydrogen lines that also carry a lexing diagnostic (their diagnostic is reported even though the atom is discarded)"],
     },
